@@ -728,13 +728,17 @@ fn diff_switch_case(rng: &mut Rng) -> (&'static str, &'static str, String, Strin
 // the stream
 
 fn generate(seeds: &[Seed], budget: usize, tier: &str, rng: &mut Rng) -> Vec<Input> {
-    let _ = tier;
     let mut g = rng.fork();
     let mut out = vec![];
     let srcs: Vec<&Seed> = seeds.iter().filter(|s| !s.is_map).collect();
     let maps: Vec<&Seed> = seeds.iter().filter(|s| s.is_map).collect();
     // the seeds themselves (they may legitimately fail with a diagnostic: e.g. compile-fail tests)
-    for s in &srcs { out.push(Input { tool: s.tool.clone(), game: s.game.clone(), flags: s.flags.clone(), kind: "seed", desc: s.name.clone(), source: s.bytes.clone(), mapfile: None }); }
+    // quick tier: every other unmodified seed (which half depends on VERIF_SEED); thorough: all of them
+    let half = if tier == "thorough" { None } else { Some((seed_from_env() % 2) as usize) };
+    for (k, s) in srcs.iter().enumerate() {
+        if let Some(h) = half { if k % 2 != h { continue; } }
+        out.push(Input { tool: s.tool.clone(), game: s.game.clone(), flags: s.flags.clone(), kind: "seed", desc: s.name.clone(), source: s.bytes.clone(), mapfile: None });
+    }
     for s in &maps { out.push(Input { tool: s.tool.clone(), game: s.game.clone(), flags: s.flags.clone(), kind: "seed-map", desc: s.name.clone(), source: trivial_source(&s.tool, &s.flags).into_bytes(), mapfile: Some(s.bytes.clone()) }); }
     let configs: [(&str, &str, &[&str]); 12] = [("truanm", "6", &[]), ("truanm", "12", &[]), ("truanm", "17", &[]), ("trustd", "6", &[]), ("trustd", "8", &[]), ("trustd", "12", &[]),
         ("trumsg", "6", &[]), ("trumsg", "12", &[]), ("trumsg", "10", &["--ending"]), ("trumsg", "095", &["--mission"]), ("truecl", "6", &[]), ("truecl", "10", &[])];
@@ -856,7 +860,7 @@ fn run_one(dir: &Path, i: &Input, exec: Option<bool>) -> Outcome {
 fn worker(inputs: &[Input], k: usize, n: usize) {
     // warm-up in the parent: lazily initialised statics (lexer, regexes) are then inherited by every forked child
     let _ = run_typecheck("const int C0 = 3;\nscript s0 {\n    ins_900(C0 + 1);\n}\n");
-    let dir = work_dir("c04").join(format!("fw{}", k)); let _ = std::fs::create_dir_all(&dir);
+    let dir = work_dir("c04").join(format!("fw{}-{}", k, std::process::id())); let _ = std::fs::create_dir_all(&dir);
     let mut cnt = 0usize; let mut ok0 = 0usize;
     for (i, inp) in inputs.iter().enumerate() {
         if i % n != k { continue; }
@@ -866,6 +870,7 @@ fn worker(inputs: &[Input], k: usize, n: usize) {
         if !o.ok { println!("R\t{}\t{}\t{}\t{}\t{}", i, o.ok, o.class, o.detail.replace('\t', " ").replace('\n', " "), o.rc); }
     }
     println!("WDONE\t{}\t{}\t{}", k, cnt, ok0);
+    let _ = std::fs::remove_dir_all(&dir);
 }
 
 fn report(inputs: &[Input], res: &[(usize, Outcome)], mode: &str, compiled_ok: usize) {
@@ -908,7 +913,7 @@ fn master(manifest: &str, inputs: &[Input], budget: usize, tier: &str, nexec: us
     }
     if wok != nw || done != inputs.len() { println!("HARNESS-ERROR\tworkers finished {}/{} with {} of {} inputs", wok, nw, done, inputs.len()); }
     res.sort_by_key(|r| r.0);
-    let dir = work_dir("c04").join("exec"); let _ = std::fs::create_dir_all(&dir);
+    let dir = work_dir("c04").join(format!("exec-{}", std::process::id())); let _ = std::fs::create_dir_all(&dir);
     let mut dropped = 0;
     res.retain(|(i, o)| { if !o.class.contains("-timeout") { return true; } let o2 = run_one(&dir, &inputs[*i], Some(false)); if o2.class.contains("-timeout") { true } else { dropped += 1; false } });
     if dropped > 0 { println!("NOTE\t{} timeouts under load did not reproduce through truth-cli and were dropped", dropped); }
@@ -920,12 +925,14 @@ fn master(manifest: &str, inputs: &[Input], budget: usize, tier: &str, nexec: us
     let failing: BTreeMap<usize, String> = res.iter().filter(|(_, o)| !o.ok).map(|(i, o)| (*i, o.class.clone())).collect();
     let (mut agree, mut disagree) = (0, 0);
     for i in &confirm {
-        let o = run_one(&dir, &inputs[*i], Some(false));
+        let mut o = run_one(&dir, &inputs[*i], Some(false));
         let expect = failing.get(i).cloned().unwrap_or_else(|| "pass".into());
+        if (if o.ok { "pass".to_string() } else { o.class.clone() }) != expect { o = run_one(&dir, &inputs[*i], Some(false)); }   // once more before calling it a disagreement
         let got = if o.ok { "pass".to_string() } else { o.class.clone() };
         if expect == got { agree += 1; } else { disagree += 1; println!("EXEC-DIFF\tcli\tfork={}\texec={}\t{}\t{}\t{}", expect, got, o.detail, inputs[*i].desc, hex(&inputs[*i].source)); }
     }
     println!("STATS\tcli-exec\tconfirmed_through_truth-cli={}\tdisagreements={}", agree, disagree);
+    let _ = std::fs::remove_dir_all(&dir);
 }
 
 fn main() {
@@ -950,7 +957,7 @@ fn main() {
             let source = unhex(std::fs::read_to_string(&args[5]).expect("hex file").trim());
             let mapfile = if get(6) == "-" || get(6).is_empty() { None } else { Some(unhex(std::fs::read_to_string(&args[6]).expect("hex file").trim())) };
             let inp = Input { tool: args[2].clone(), game: args[3].clone(), flags: split(&args[4]), kind: "replay", desc: "replay".into(), source, mapfile };
-            let dir = work_dir("c04").join("replay"); let _ = std::fs::create_dir_all(&dir);
+            let dir = work_dir("c04").join(format!("replay-{}", std::process::id())); let _ = std::fs::create_dir_all(&dir);
             let o = run_one(&dir, &inp, None);
             report(&[inp.clone()], &[(0, o)], "cli", 0);
             let o = run_one(&dir, &inp, Some(false));
